@@ -33,6 +33,13 @@ def run(ctx):
             sp, _ = mpgen.poly_spec(rng, kind)
             lines.append("ipac %s %x %s" % (E.hx(b"c04"), z, sp))
             cls.append("create z=%s poly=%s" % (("%d" % z) if z < 600 else ("big" if z < R - 2 else "r-%d" % (R - z)), kind))
+    # the domain boundary systematically: polynomials that are non-zero at 254 / 255 (a dense and a
+    # constant one, and the unit vector at 255), at every point around the switch
+    for z in (0, 1, 254, 255, 256, 257):
+        for kind in ("u255", "c", "r"):
+            sp, _ = mpgen.poly_spec(rng, kind)
+            lines.append("ipac %s %x %s" % (E.hx(b"c04"), z, sp))
+            cls.append("create z=%d poly=%s (boundary)" % (z, kind))
     impl, mod = diff(ctx, lines, "CreateIPAProof", cls, impl_shards=2)
     vl, vc, expect = [], [], []
     for l, o, om in zip(lines, impl, mod):
